@@ -44,6 +44,7 @@ type layCase struct {
 	Args     []string          `json:"args"`
 	RunDir   string            `json:"run_dir"` // relative to root, "" = root, ".." = parent of root
 	UseCwd   bool              `json:"use_cwd_flag"`
+	Global   []string          `json:"global_lines"`
 	CwdRel   bool              `json:"cwd_flag_relative"`
 	Existing map[string]string `json:"existing_packages"` // dir -> package name
 	root     string
@@ -65,12 +66,27 @@ func genLayCase(r *rng.R, id int, base string) *layCase {
 		lc.Existing[p] = filepath.Base(p)
 	}
 	n := 1 + r.Intn(3)
+	// a GLOBAL relative output:file (-g): resolved per converter against the directory of ITS declaring file
+	if r.Chance(20) {
+		lc.Global = []string{"output:file ./gx/out.go"}
+		n = 2 + r.Intn(2)
+	}
 	for i := 0; i < n; i++ {
 		cv := &layConv{Pkg: rng.Pick(r, pkgs), Vars: r.Chance(25), Name: fmt.Sprintf("Conv%d", i)}
+		if len(lc.Global) > 0 {
+			cv.Pkg = pkgs[i%len(pkgs)] // spread over the input packages
+			cv.Vars = false
+		}
 		cv.File = fmt.Sprintf("%s/conv%d.go", cv.Pkg, i)
 		j := r.Intn(2)
 		var targetDir string // relative to root, "" = unknown/default
-		switch k := r.Intn(8); {
+		kk := r.Intn(8)
+		if len(lc.Global) > 0 {
+			kk = 100
+		}
+		switch k := kk; {
+		case k == 100:
+			targetDir = cv.Pkg + "/gx"
 		case k < 3: // default
 			if cv.Vars {
 				targetDir = cv.Pkg
@@ -93,7 +109,11 @@ func genLayCase(r *rng.R, id int, base string) *layCase {
 			cv.Lines = append(cv.Lines, fmt.Sprintf("output:file out%d.go", j))
 			targetDir = cv.Pkg
 		}
-		switch r.Intn(6) {
+		pk := r.Intn(6)
+		if len(lc.Global) > 0 {
+			pk = 5
+		}
+		switch pk {
 		case 0:
 			cv.Lines = append(cv.Lines, "output:package "+lc.Module+"/x/y-z")
 		case 1:
@@ -101,7 +121,7 @@ func genLayCase(r *rng.R, id int, base string) *layCase {
 		case 2:
 			cv.Lines = append(cv.Lines, "output:package :nm")
 		}
-		if r.Chance(30) && targetDir != "" && lc.Existing[targetDir] == "" && !strings.HasPrefix(targetDir, "..") {
+		if (r.Chance(30) || (len(lc.Global) > 0 && r.Chance(70))) && targetDir != "" && lc.Existing[targetDir] == "" && !strings.HasPrefix(targetDir, "..") {
 			name := rng.Pick(r, []string{"realname", "other", filepath.Base(targetDir)})
 			lc.Tree[targetDir+"/existing.go"] = "package " + name + "\n"
 			lc.Existing[targetDir] = name
@@ -155,6 +175,14 @@ func genLayCase(r *rng.R, id int, base string) *layCase {
 	default:
 		lc.Args = []string{"gen", lc.Module + "/..."}
 	}
+	if len(lc.Global) > 0 {
+		var a []string
+		a = append(a, lc.Args[0])
+		for _, g := range lc.Global {
+			a = append(a, "-g", g)
+		}
+		lc.Args = append(a, lc.Args[1:]...)
+	}
 	return lc
 }
 
@@ -169,7 +197,7 @@ func (lc *layCase) request() *sx.Node {
 			cwd = filepath.Base(lc.root)
 		}
 	}
-	req := sx.H("place", sx.I(lc.ID), sx.H("cwd", sx.S(cwd)), sx.H("procwd", sx.S(procwd)), sx.H("cli"))
+	req := sx.H("place", sx.I(lc.ID), sx.H("cwd", sx.S(cwd)), sx.H("procwd", sx.S(procwd)), sx.Strs("cli", lc.Global))
 	ld := sx.H("loaded")
 	var dirs []string
 	for d := range lc.Existing {
@@ -201,7 +229,7 @@ func packageClauseOf(path string) string {
 }
 
 func runC15(e *env) error {
-	e.rep.Rule = "cases = scratch modules with 1-3 converters (interfaces and variables blocks) over 1-3 packages, output:file in {default, relative, parent, absolute, @cwd, sibling file} x output:package in {absent, path, path:name, :name} x existing/non-existing target package x shared output files x invocation {./..., explicit dirs, -cwd (absolute and relative) from another directory, module pattern}; the goverter binary built from /repo is run, the tree is snapshotted before/after, and created paths, package clauses and modes are compared with Gv.Layout (place / outputPath / resolveOutputPackage / guessAlias). Direct calls compare jennifer's guessAlias (via jen.NewFilePath) and path/filepath functions with the model. non-trivial = at least one output setting or several converters; distinct = canonical case"
+	e.rep.Rule = "cases = scratch modules with 1-3 converters (interfaces and variables blocks) over 1-3 packages, output:file in {default, relative, parent, absolute, @cwd, sibling file} x output:package in {absent, path, path:name, :name} x existing/non-existing target package x a global (-g) relative output:file resolved per input package x shared output files x invocation {./..., explicit dirs, -cwd (absolute and relative) from another directory, module pattern}; the goverter binary built from /repo is run, the tree is snapshotted before/after, and created paths, package clauses and modes are compared with Gv.Layout (place / outputPath / resolveOutputPackage / guessAlias). Direct calls compare jennifer's guessAlias (via jen.NewFilePath) and path/filepath functions with the model. non-trivial = at least one output setting or several converters; distinct = canonical case"
 	nCases := 48
 	if e.thorough {
 		nCases = 700 * e.scale
